@@ -69,6 +69,15 @@ fn random_matrix(rng: &mut Rng) -> Matrix4<f32> {
             for j in 0..3 {
                 m[(3, j)] = rng.uniform(-0.3, 0.3) as f32;
             }
+            // a single perspective term (a view tilted about one axis)
+            if rng.chance(0.4) {
+                let keep = rng.below(3);
+                for j in 0..3 {
+                    if j != keep {
+                        m[(3, j)] = 0.0;
+                    }
+                }
+            }
         }
     }
     m
@@ -245,9 +254,32 @@ fn check_backend<F: Backend>(
     // ---------------- bulk float
     {
         let n = 1 + rng.below(11);
-        let xs: Vec<f32> = (0..n).map(|_| rng.uniform(-2.0, 2.0) as f32).collect();
-        let ys: Vec<f32> = (0..n).map(|_| rng.uniform(-2.0, 2.0) as f32).collect();
-        let zs: Vec<f32> = (0..n).map(|_| rng.uniform(-2.0, 2.0) as f32).collect();
+        let mut xs: Vec<f32> = (0..n).map(|_| rng.uniform(-2.0, 2.0) as f32).collect();
+        let mut ys: Vec<f32> = (0..n).map(|_| rng.uniform(-2.0, 2.0) as f32).collect();
+        let mut zs: Vec<f32> = (0..n).map(|_| rng.uniform(-2.0, 2.0) as f32).collect();
+        // samples at exactly special positions: coordinates that are exactly
+        // zero (of either sign), and - under a perspective row - positions
+        // on the locus where the homogeneous weight is exactly m33 (every
+        // coordinate with a non-zero perspective coefficient is zero), e.g.
+        // the plane z = 0 of a view with bottom row [0, 0, p, 1]
+        for j in 0..n {
+            match rng.below(6) {
+                0 => {
+                    let k = rng.below(3);
+                    let z = if rng.chance(0.5) { 0.0 } else { -0.0 };
+                    [&mut xs, &mut ys, &mut zs][k][j] = z;
+                }
+                1 => {
+                    for (k, col) in [&mut xs, &mut ys, &mut zs].into_iter().enumerate() {
+                        if m[(3, k)] != 0.0 {
+                            col[j] = 0.0;
+                        }
+                    }
+                    st.inc("samples_on_unit_weight_locus");
+                }
+                _ => {}
+            }
+        }
         let tape = shape.float_slice_tape(Default::default());
         let mut ev = Shape::<F>::new_float_slice_eval();
         child::note(&format!("C14 {name} shape bulk eval | program {:016x}", p.hash()));
